@@ -180,12 +180,18 @@ inherit() {
 	local location olocation
 	local ECLASS
 
-	# note that this ensures any later unsets/mangling, the ebuilds original
-	# setting is protected.
-	local IUSE REQUIRED_USE DEPEND RDEPEND PDEPEND BDEPEND IDEPEND
+	# The values the caller (the ebuild, or an eclass that inherits) has set so
+	# far are put aside and restored by hand.  Shadowing them with locals of
+	# this function is not enough: eclass code runs a few function calls
+	# further down, where an `unset` removes such a local instead of emptying
+	# it, which exposes the caller's variable to the rest of the eclass.
+	local B_IUSE B_REQUIRED_USE B_DEPEND B_RDEPEND B_PDEPEND B_BDEPEND B_IDEPEND
+	local B_PROPERTIES B_RESTRICT
+	local -a __inherit_vars=( IUSE REQUIRED_USE DEPEND RDEPEND PDEPEND BDEPEND IDEPEND )
 	if ${PKGCORE_ACCUMULATE_PROPERTIES_RESTRICT}; then
-		local PROPERTIES RESTRICT
+		__inherit_vars+=( PROPERTIES RESTRICT )
 	fi
+	local __inherit_var __inherit_ref
 
 	# keep track of direct ebuild inherits
 	[[ ${INHERIT_DEPTH} -eq 1 ]] && INHERIT+=" $@"
@@ -199,26 +205,30 @@ inherit() {
 			fi
 		fi
 
-		unset -v IUSE REQUIRED_USE DEPEND RDEPEND PDEPEND BDEPEND IDEPEND
-		if ${PKGCORE_ACCUMULATE_PROPERTIES_RESTRICT}; then
-			unset -v PROPERTIES RESTRICT
-		fi
+		for __inherit_var in "${__inherit_vars[@]}"; do
+			__inherit_ref=B_${__inherit_var}
+			unset -v ${__inherit_ref}
+			[[ -n ${!__inherit_var+set} ]] && printf -v ${__inherit_ref} '%s' "${!__inherit_var}"
+			unset -v ${__inherit_var}
+		done
 
 		__internal_inherit "$1" || die "${FUNCNAME}: failed sourcing $1"
 
-		# If each var has a value, append it to the global variable E_* to
-		# be applied after everything is finished. New incremental behavior.
-		[[ -n ${IUSE}         ]] && E_IUSE+=${E_IUSE:+ }${IUSE}
-		[[ -n ${REQUIRED_USE} ]] && E_REQUIRED_USE+=${E_REQUIRED_USE:+ }${REQUIRED_USE}
-		[[ -n ${DEPEND}       ]] && E_DEPEND+=${E_DEPEND:+ }${DEPEND}
-		[[ -n ${RDEPEND}      ]] && E_RDEPEND+=${E_RDEPEND:+ }${RDEPEND}
-		[[ -n ${PDEPEND}      ]] && E_PDEPEND+=${E_PDEPEND:+ }${PDEPEND}
-		[[ -n ${BDEPEND}      ]] && E_BDEPEND+=${E_BDEPEND:+ }${BDEPEND}
-		[[ -n ${IDEPEND}      ]] && E_IDEPEND+=${E_IDEPEND:+ }${IDEPEND}
-		if ${PKGCORE_ACCUMULATE_PROPERTIES_RESTRICT}; then
-			[[ -n ${PROPERTIES} ]] && E_PROPERTIES+=${E_PROPERTIES:+ }${PROPERTIES}
-			[[ -n ${RESTRICT}   ]] && E_RESTRICT+=${E_RESTRICT:+ }${RESTRICT}
-		fi
+		for __inherit_var in "${__inherit_vars[@]}"; do
+			# If the eclass gave the var a value, append it to the variable E_*
+			# that is applied after everything is finished.
+			__inherit_ref=E_${__inherit_var}
+			if [[ -n ${!__inherit_var} ]]; then
+				printf -v ${__inherit_ref} '%s' "${!__inherit_ref:+${!__inherit_ref} }${!__inherit_var}"
+			fi
+			# and hand the caller's value back
+			__inherit_ref=B_${__inherit_var}
+			if [[ -n ${!__inherit_ref+set} ]]; then
+				printf -v ${__inherit_var} '%s' "${!__inherit_ref}"
+			else
+				unset -v ${__inherit_var}
+			fi
+		done
 
 		# while other PMs have checks to keep this unique, we don't; no need,
 		# further up the stack (python side) we uniquify this.
